@@ -38,7 +38,7 @@ Definition thick_ok (l : line) (w : Z) : Prop :=
     (2 <= w -> middle_ok l w ps).
 
 (* OPEN: forall l w, line_ok l -> 0 <= w -> thick_ok l w   (all lines, all widths).
-   Proved below only on the finite domain |dx|,|dy| <= 24, w <= 12 (thick_ok_grid, C17_thick_grid_partial).
+   Proved only on the finite domain |dx|,|dy| <= 14, w <= 9 (thick_ok_grid, C17_thick_grid_partial).
    What is proved for ALL lines and widths (Proofs/Thickline.v): width 0 / width 1, the stroke starts with the thin
    line, <= 3w+2 parallels (termination), translation equivariance.  A general proof of NoDup needs the phase
    invariant between adjacent parallels (left_error/right_error vs. the perpendicular Bresenham state); a general
